@@ -142,8 +142,10 @@ def runLine (pkgName pkgVersion : List Byte) (st : St) (line : String) : St × O
     let cs := match rest with | [] => [] | t :: _ => if t = "" then [] else (t.splitOn ",").map cueOfTok
     let r := step pkgName pkgVersion st.h (.setCues cs)
     ({ st with h := r.2 }, some ("ret=" ++ toString r.1))
-  | "w" :: "h0" :: _ =>
-    ({ st with h := (step pkgName pkgVersion st.h (.writeAudio [0])).2 }, none)
+  | "w" :: "h0" :: _ :: _ :: cnt :: _ =>
+    let sub := st.fmt % 65536
+    let width : Nat := if sub = 1 ∨ sub = 5 then 1 else if sub = 2 then 2 else if sub = 3 then 3 else if sub = 7 then 8 else 4
+    ({ st with h := (step pkgName pkgVersion st.h (.writeAudio (zeros ((cnt.toNat?.getD 0) * width)))).2 }, none)
   | "close" :: "h0" :: _ => ({ st with closed := true }, none)
   | "getmeta" :: "h1" :: _ =>
     (st, some (if st.closed ∧ st.supported then metaLine st else "meta ?"))
